@@ -52,7 +52,12 @@ type session struct {
 }
 
 func startSession(path string, u *Universe, bs int, emit func(*Event) error) (*session, error) {
-	sut, err := Create(path, bs)
+	// bs = 1024 is asked for the way the repository's callers do: NewHashSet(f, 0), the default batch size
+	real := bs
+	if bs == 1024 {
+		real = 0
+	}
+	sut, err := Create(path, real)
 	if err != nil {
 		return nil, err
 	}
@@ -195,6 +200,19 @@ func generate(rng *rand.Rand, dir string, ntraces, length int, emit func(*Event)
 		if rng.Intn(4) == 0 {
 			bs = 1 + rng.Intn(4)
 		}
+		if t < 2 {
+			// one session with a whole default batch (what merge and the CLI use: 1024 pending hashes written by one
+			// flush - on an empty set all of them at one insertion point), or a batch size above the default
+			bs = 1024
+			if t == 1 {
+				bs = 1025 + rng.Intn(700)
+			}
+			n = bs + 200 + rng.Intn(200)
+			tlen = bs + 150 + rng.Intn(200) // (no explicit flush before operation bs+80: the batch fills up)
+			if u, err = randomUniverse(rng, n); err != nil {
+				return err
+			}
+		}
 		s, err := startSession(filepath.Join(dir, fmt.Sprintf("set-%d.idx", t)), u, bs, emit)
 		if err != nil {
 			return err
@@ -209,9 +227,9 @@ func generate(rng *rand.Rand, dir string, ntraces, length int, emit func(*Event)
 				ok, err = s.do("flush", 0, probeSet(rng, n, 1+rng.Intn(n), 12), true)
 			case i == tlen-1:
 				ok, err = s.do("reopen", 0, probeSet(rng, n, 1+rng.Intn(n), 12), true)
-			case k < 8:
+			case k < 8 && (t >= 2 || i > bs+80):
 				ok, err = s.do("flush", 0, probeSet(rng, n, 1+rng.Intn(n), 8), true)
-			case k < 12:
+			case k < 12 && (t >= 2 || i > bs+80):
 				ok, err = s.do("reopen", 0, probeSet(rng, n, 1+rng.Intn(n), 8), true)
 			default:
 				h := 1 + rng.Intn(n)
